@@ -10,7 +10,7 @@ import (
 
 // C13 — deprecated/compactindex (legacy cid-to-offset index, 8-byte values): same claim as
 // C13.cidx for the legacy format: fixed 32-byte header (magic, FileSize, NumBuckets, version),
-// value width = intWidth(FileSize).
+// value width = bytes needed for FileSize.
 
 type verifC13File struct {
 	data []byte
@@ -47,6 +47,18 @@ var verifC13Bucket [16]uint
 func EntryHash64(prefix uint32, key []byte) uint64 { return verifC13Hash[key[0]] }
 func (h *Header) BucketHash(key []byte) uint       { return verifC13Bucket[key[0]] }
 
+// verifC13Eytzinger: the eytzinger (BFS) order of a sorted slice - harness copy of the layout the
+// format defines.
+func verifC13Eytzinger(in, out []Entry, i, k int) int {
+	if k <= len(in) {
+		i = verifC13Eytzinger(in, out, i, 2*k)
+		out[k-1] = in[i]
+		i++
+		i = verifC13Eytzinger(in, out, i, 2*k+1)
+	}
+	return i
+}
+
 func verifC13Put(buf []byte, x uint64) {
 	var full [8]byte
 	binary.LittleEndian.PutUint64(full[:], x)
@@ -55,8 +67,10 @@ func verifC13Put(buf []byte, x uint64) {
 
 func VerifC13CidxDep() {
 	fsizes := []uint64{1000, 1 << 40, 1<<64 - 1} // value width 2, 6, 8
-	fileSize := fsizes[verifChoice("filesize", verifParam("fsizes", 2))]
-	W := int(intWidth(fileSize))
+	widths := []int{2, 6, 8}                     // bytes needed to represent FileSize = width of the stored offsets
+	fi := verifChoice("filesize", verifParam("fsizes", 2))
+	fileSize, W := fsizes[fi], widths[fi]
+	const headerSize, bucketHdrLen = 32, 16 // format constants
 	nb := 1 + verifChoice("buckets", verifParam("maxbuckets", 2))
 	minN := verifParam("minN", 1)
 	n := minN + verifChoice("n", verifParam("N", 3)-minN+1)
@@ -90,9 +104,9 @@ func VerifC13CidxDep() {
 			key++
 		}
 		laid := make([]Entry, cnt)
-		eytzinger(entries, laid, 0, 1)
+		verifC13Eytzinger(entries, laid, 0, 1)
 		for i, e := range laid {
-			// marshalEntry's layout, without putUintLe's width check (intWidth of a symbolic value)
+			// entry = 3-byte little-endian hash, then the W-byte little-endian value
 			verifC13Put(img[off+i*stride:off+i*stride+3], e.Hash)
 			verifC13Put(img[off+i*stride+3:off+(i+1)*stride], e.Value)
 		}
